@@ -2,6 +2,7 @@ package mon
 
 import (
 	"fmt"
+	"sort"
 	"strings"
 
 	memefish "github.com/cloudspannerecosystem/memefish"
@@ -9,6 +10,7 @@ import (
 
 	"verif/internal/astx"
 	"verif/internal/gen"
+	"verif/internal/reflex"
 )
 
 // topFrame extracts the innermost memefish function from a panic stack.
@@ -232,6 +234,32 @@ func RunC03(c *Ctx) {
 					c.Count("late_multiline_error_inputs", 1)
 				}
 				idx++
+			}
+		}
+	}
+	// 3c. every keyword right after a syntax error and right before a lexically malformed token: error recovery and
+	// look-ahead read tokens on their own, outside the entry point's ordinary error path
+	{
+		var words []string
+		words = append(words, reflex.ReservedWords...)
+		for w := range gen.PseudoKeywords {
+			words = append(words, w)
+		}
+		sort.Strings(words)
+		words = append(words, ";", ",", ")", "(", "|>", "@{", ".", "*")
+		bad := []string{"'x", "\"x", "`x", "/* c", "'''x", "\x00", "0x", "1e", "1x", "$", "'\\u12'", "b'\\400'", "r'", "\xff"}
+		pres := []string{"", "1 + ", "(", "SELECT ", "SELECT * ", "SELECT 1 FROM t WHERE ", "SELECT (1 +) ", "CREATE TABLE t (a ", "INSERT INTO t (a) VALUES (", "UPDATE t SET ", "x y ", "[", "CASE WHEN ", "f("}
+		for _, w := range words {
+			for _, b := range bad {
+				for _, pre := range pres {
+					if c.Mine(idx) {
+						for _, e := range allEntriesPlus {
+							CheckC03(c, e, pre+w+" "+b)
+						}
+						c.Count("keyword_then_malformed_token_inputs", 1)
+					}
+					idx++
+				}
 			}
 		}
 	}
